@@ -19,7 +19,10 @@ Record nend := End { e_sym : nat; e_pin : option pin }.                    (* a 
 Record net := Net { n_wire : nat; n_src : nend; n_snk : nend; n_from : option (Z * Z); n_to : option (Z * Z) }.
 (* where a symbol draws one of its pins: symbol id, pin, absolute x, y  (symbol.x + getPortSourcePos/getPortSinkPos) *)
 Record pinat := PinAt { a_sym : nat; a_pin : pin; a_x : Z; a_y : Z }.
-Record layout := Lay { l_syms : list sym; l_nets : list net; l_pins : list pinat }.
+(* what the symbol's draw() really PAINTS for a pin: the bounding box of the pin marker (recorded on a canvas that only logs the
+   drawing calls; which marker belongs to which port is read off the label text / the drawing order — an independent source) *)
+Record markat := MarkAt { m_sym : nat; m_pin : pin; m_x0 : Z; m_y0 : Z; m_x1 : Z; m_y1 : Z }.
+Record layout := Lay { l_syms : list sym; l_nets : list net; l_pins : list pinat; l_marks : list markat }.
 
 Definition node := (nat * option pin)%type.                                (* an attachment point: symbol id, pin *)
 
@@ -183,9 +186,16 @@ Definition net_geo (l : layout) (n : net) : bool :=
   is_some (n_from n) && is_some (n_to n) && geo_end l (n_src n) (n_from n) && geo_end l (n_snk n) (n_to n).
 Definition chk_geo (l : layout) : bool := forallb (net_geo l) (l_nets l).
 
+(* the point a symbol computes for a pin lies on the marker the symbol paints for that pin *)
+Definition on_mark (m : markat) (a : pinat) : bool :=
+  Z.leb (m_x0 m) (a_x a) && Z.leb (a_x a) (m_x1 m) && Z.leb (m_y0 m) (a_y a) && Z.leb (a_y a) (m_y1 m).
+Definition mark_ok (l : layout) (m : markat) : bool :=
+  forallb (fun a => if Nat.eqb (a_sym a) (m_sym m) && pin_eqb (a_pin a) (m_pin m) then on_mark m a else true) (l_pins l).
+Definition chk_marks (l : layout) : bool := forallb (mark_ok l) (l_marks l).
+
 (* ------------------------------------------------------------------ the validator *)
 Definition schem_ok (c : circuit) (l : layout) : bool :=
-  circ_ok c && chk_ids l && chk_only c l && chk_each c l && chk_geom l && chk_ends c l && chk_wires c l && chk_pinpts c l && chk_geo l.
+  circ_ok c && chk_ids l && chk_only c l && chk_each c l && chk_geom l && chk_ends c l && chk_wires c l && chk_pinpts c l && chk_geo l && chk_marks l.
 
 (* diagnosis printed by the harness when schem_ok = false: which clause, which symbols / nets / wires
    (only nat / bool / list / tuple values, so that the harness can parse the printed term) *)
@@ -210,11 +220,12 @@ Definition coincident_pins (c : circuit) (l : layout) : list (nat * nat * Z * Z)
                                (combine (seq 0 (length (l_pins l))) (l_pins l)))
            (combine (seq 0 (length (l_pins l))) (l_pins l)).
 Definition schem_diag (c : circuit) (l : layout) :=
-  ( (circ_ok c, chk_ids l, chk_only c l, chk_each c l, chk_geom l, chk_ends c l, chk_wires c l, chk_pinpts c l, chk_geo l),
+  ( (circ_ok c, chk_ids l, chk_only c l, chk_each c l, chk_geom l, chk_ends c l, chk_wires c l, chk_pinpts c l, chk_geo l, chk_marks l),
     map elem_code (filter (fun e => negb (Nat.eqb (count (stands_for e) (real_syms l)) 1)) (elems c)),   (* elements without exactly one symbol *)
     map s_id (filter (fun s => match s_for s with Some e => negb (elem_ok c e && skind_eqb (s_kind s) (kind_of_elem e)) | None => true end) (real_syms l)),
     bad_pairs l,                                                                                   (* instance/port symbols in one cell or overlapping *)
     map fst (filter (fun kn => negb (net_ok c l (snd kn))) (combine (seq 0 (length (l_nets l))) (l_nets l))),    (* indices of bad nets *)
     map (wire_diag l) (filter (fun w => negb (chk_wire l w)) (c_wires c)),                         (* wires whose figure is wrong *)
     coincident_pins c l,                                                                           (* pins of different wires drawn at one point *)
-    map fst (filter (fun kn => negb (net_geo l (snd kn))) (combine (seq 0 (length (l_nets l))) (l_nets l))) ).   (* nets not routed / not ending on the pin *)
+    map fst (filter (fun kn => negb (net_geo l (snd kn))) (combine (seq 0 (length (l_nets l))) (l_nets l))),     (* nets not routed / not ending on the pin *)
+    map fst (filter (fun km => negb (mark_ok l (snd km))) (combine (seq 0 (length (l_marks l))) (l_marks l))) ). (* markers whose pin is computed elsewhere *)
